@@ -426,6 +426,48 @@ def _assembly(run, ix):
         if not ok:
             run.violation("R11", f.where, f"slice_mesh_plane leaves the cap branch at line {bad[0][0] if bad else '?'} (guard `{bad[0][1][:60] if bad else ''}`) after `vertices = vertices[{uname}]` but before "
                                           f"the faces are re-indexed: the returned faces index the old vertex order", key=key_of("C11-R11", "cap-reindex"))
+    # ------------------------------------------------------------------ R13 one normal for the whole multi-plane section
+    run.rule("R13", "mesh_multiplane: the plane handed to mesh_plane for each height - its normal, its origin offset along the normal, and the cached signed distances - "
+                    "are all built from ONE normal (the unitized one): an origin offset along the caller's raw normal puts the plane somewhere else than the distances say")
+    from ..dag import Values
+    mm_ = ix.func("trimesh.intersections:mesh_multiplane")
+    Vm = Values(ix, mm_)
+    n13 = 0
+    for c in ast.walk(mm_.node):
+        if isinstance(c, ast.Call) and Vm.pv.callee(c.func) == "trimesh.intersections.mesh_plane":
+            st_ = Vm.pv.stmt_of(c)
+            kw = {k.arg: Vm.value(k.value, st_) for k in c.keywords if k.arg}
+            if not {"plane_normal", "plane_origin"} <= set(kw):
+                continue
+            n13 += 1
+            nn = kw["plane_normal"]
+            un = Vm.match("trimesh.util.unitize(vectors=_e_RAW)", nn)
+            run.instance("R13", mm_.where, "the normal handed to mesh_plane is a unit vector (util.unitize)", un is not None)
+            if un is None:
+                run.violation("R13", mm_.where, f"mesh_multiplane hands `{Vm.text(nn, 2, 60)}` to mesh_plane as the plane normal: not unitized, so `heights` are not distances along it",
+                              key=key_of("C11-R13", "unit"))
+                continue
+            raw, unit = un["_e_RAW"], Vm.dag._ident(nn)
+            # every product / outer product inside the origin that involves a normal uses the unit one
+            bad = []
+            for tpl in ("_e_a * _e_b", "numpy.outer(_e_a, _e_b)"):
+                for env, _ in Vm.dag.find(tpl, kw["plane_origin"]):
+                    for side in ("_e_a", "_e_b"):
+                        if env[side] == raw:
+                            bad.append(Vm.text(env[side], 1, 40))
+            srcs = [("origin", kw["plane_origin"])] + ([("cached distances", kw["cached_dots"])] if "cached_dots" in kw else [])
+            for label, node_ in srcs[1:]:
+                for env, _ in Vm.dag.find("numpy.dot(_e_a, _e_b)", node_):
+                    if env["_e_a"] == raw:
+                        bad.append(label + ": " + Vm.text(env["_e_a"], 1, 40))
+            ok = not bad
+            run.instance("R13", mm_.where, f"origin offsets and cached distances use the unit normal `{Vm.text(unit, 1, 50)}` (raw uses: {bad or 'none'})", ok)
+            if not ok:
+                run.violation("R13", mm_.where, f"mesh_multiplane offsets the plane origin (or measures the cached distances) along the caller's RAW normal `{bad[0]}` while mesh_plane gets the unitized one: "
+                                                f"for a non-unit normal the section is computed on a plane the classified faces do not straddle", key=key_of("C11-R13", "raw-normal"))
+    if n13 == 0:
+        run.instance("R13", mm_.where, "mesh_plane call of mesh_multiplane not in a recognised form - NOT decided", True, nontrivial=False)
+        run.assume("mesh_multiplane: the per-height mesh_plane call is not in a recognised form")
     run.rule("R12", "lines_to_path hands every segment to edges_to_path: the edges are the merged vertex indices of all segments, not a filtered subset")
     lp = ix.func("trimesh.path.exchange.misc:lines_to_path")
     pl = Prov(ix, lp)
